@@ -181,7 +181,8 @@ def monitor(ctx, g, text, opts, which=("S1", "S2", "S3"), prop="C14"):
 
 def one(ctx, rng, k, prop="C14"):
     ext = "ext:contradictory-alias-signs" if rng.random() < 0.03 else None
-    g = gensolv.SolvGen(rng, ext=ext).build()
+    # two of the unknowns are sometimes the elements of an array (with or without expand_vectors)
+    g = gensolv.SolvGen(rng, ext=ext, with_array=rng.random() < 0.15).build()
     text = g.text()
     opts = gensolv.option_subset(rng, k + ctx.shard * 1000, g.affine)
     if getattr(g, "late_alias", False) and rng.random() < 0.6:
